@@ -521,6 +521,54 @@ impl From<String> for Cell {
     }
 }
 
+#[cfg(feature = "verif_hooks")]
+impl Cell {
+    /// Unambiguous, storage-independent rendering (types, tags and real bit patterns included).
+    pub fn verif_render(&self, out: &mut String) {
+        match self {
+            Cell::Nil => out.push_str("nil"),
+            Cell::Flag(x) => { let _ = write!(out, "b:{}", x); }
+            Cell::Int(x) => { let _ = write!(out, "i:{}", x); }
+            Cell::Real(x) => { let _ = write!(out, "r:{:#x}", x.to_bits()); }
+            Cell::Str(x) => { let _ = write!(out, "s:{:?}", x.as_str()); }
+            Cell::Vector(v) => {
+                out.push('[');
+                for x in v.iter() {
+                    x.verif_render(out);
+                    out.push(' ');
+                }
+                out.push(']');
+            }
+            Cell::Map(m) => {
+                out.push('{');
+                for (k, v) in m.iter() {
+                    k.verif_render(out);
+                    out.push_str("=>");
+                    v.verif_render(out);
+                    out.push(' ');
+                }
+                out.push('}');
+            }
+            Cell::Fun(x) => { let _ = write!(out, "fn:{:?}", x); }
+            Cell::Bitstr(s) => {
+                out.push('|');
+                for b in s.bits() {
+                    out.push(if b == 0 { '0' } else { '1' });
+                }
+                out.push('|');
+            }
+            Cell::AnyRc(_) => out.push_str("any"),
+            Cell::WithTag(rc) => {
+                out.push_str("tag(");
+                rc.value.verif_render(out);
+                out.push_str(" #");
+                Cell::Map(rc.tags.clone()).verif_render(out);
+                out.push(')');
+            }
+        }
+    }
+}
+
 pub const ZERO: Cell = Cell::Int(0);
 pub const ONE: Cell = Cell::Int(1);
 pub const NIL: Cell = Cell::Nil;
